@@ -107,6 +107,14 @@ def fold_format(e: ast.AST) -> Optional[Tuple[str, List[ast.AST], List[str]]]:
                 t += PH
                 cs.append("r" if parts[i + 1] == "!r" else "s")
         return t, list(e.args), cs
+    if isinstance(e, ast.Call) and isinstance(e.func, ast.Attribute) and e.func.attr == "join" and isinstance(e.func.value, ast.Constant) and e.func.value.value == "" and len(e.args) == 1 and isinstance(e.args[0], (ast.List, ast.Tuple)):
+        t, xs, cs = "", [], []
+        for part in e.args[0].elts:
+            ff = fold_format(part)
+            if ff is None:
+                return None
+            t, xs, cs = t + ff[0], xs + ff[1], cs + ff[2]
+        return t, xs, cs
     if isinstance(e, (ast.Name, ast.Attribute, ast.Call, ast.Subscript)):
         return PH, [e], ["s"]
     return None
